@@ -226,12 +226,13 @@ def build(spec):
         env.vars[nm] = {'type': t, 'dims': dims}
         prologue.append(['assign', var(nm), gen.init_value(gk, t)])
     if F('reg_param') or F('int_host_param') or F('reg_param_dim'):
-        decls.insert(len(args), decl('lp0', 'int', param=lit(gk.i(2, 5))))
+        lp0_value = gk.i(2, 5)
+        decls.insert(len(args), decl('lp0', 'int', param=lit(lp0_value)))
         env.vars['lp0'] = {'type': 'int', 'dims': None, 'ro': True}
     if F('reg_param_dim'):
-        # lpa0(lp0): lp0 >= 2 always; the generators only touch elements 1..2 (and the whole array)
+        # lpa0(lp0), lp0 >= 2: the environment knows the true extent (the compiler checks constant shapes)
         decls.append(decl('lpa0', 'real', dims=[[1, 'lp0']]))
-        env.vars['lpa0'] = {'type': 'real', 'dims': [[1, 2]], 'declared_n': True}
+        env.vars['lpa0'] = {'type': 'real', 'dims': [[1, lp0_value]]}
         prologue.append(['assign', var('lpa0'), ['r', '0.75']])
     if F('reg_modparam'):
         env.vars['mp0'] = {'type': 'int', 'dims': None, 'ro': True}
